@@ -413,6 +413,18 @@ func drawGraph(t *rapid.T) gCase {
 	for i := 0; i < ne; i++ {
 		c.Errors = append(c.Errors, gErr{Node: rapid.IntRange(0, n-1).Draw(t, "en"), Req: rapid.SampledFrom([]string{"x", "y"}).Draw(t, "er"), Err: rapid.SampledFrom([]string{"boom", "bang"}).Draw(t, "ee")})
 	}
+	// a quarter of the graphs: two nodes of one version, each with several node
+	// errors (the permuted copy records errors in reverse order)
+	if n >= 3 && rapid.IntRange(0, 3).Draw(t, "errheavy") == 0 {
+		i := rapid.IntRange(1, n-1).Draw(t, "dupa")
+		j := rapid.IntRange(1, n-1).Draw(t, "dupb")
+		c.Nodes[j] = c.Nodes[i]
+		for _, k := range []int{i, j} {
+			for m, ne := 0, rapid.IntRange(2, 3).Draw(t, "nerrs"); m < ne; m++ {
+				c.Errors = append(c.Errors, gErr{Node: k, Req: rapid.SampledFrom([]string{"x", "y", "z"}).Draw(t, "er2"), Err: rapid.SampledFrom([]string{"boom", "bang"}).Draw(t, "ee2")})
+			}
+		}
+	}
 	// renumbering of non-root nodes and edge shuffle
 	rest := rapid.Permutation(ident(n)[1:]).Draw(t, "perm")
 	c.Perm = append([]int{0}, rest...)
